@@ -29,6 +29,11 @@ def run(ctx):
     # too small count make challenges predictable or equal across rounds (shared with C05's R05a)
     from . import c05
     c05.r05a(ctx, rule='R04f')
+    # R04g: the cut-and-choose verifiers take the prover's stack secret through TMCG_StackSecret::import and mix with it without a
+    # bijection test of their own -- the importer's range and presence checks are what keeps a duplicated-and-dropped card from
+    # being accepted for every coin string (shared with C02's R02a)
+    from . import c02
+    c02.r02a(ctx, rule='R04g')
 
 
 def r04d(ctx):
